@@ -49,13 +49,32 @@ var methodNames = []string{"run", "m1", "m2", "main", "mainLoop", "remain", "dom
 var extTypes = []string{"java.util.List", "java.util.ArrayList", "org.ext.Base", "org.ext.api.Port", "java.io.Serializable"}
 var bareTypes = []string{"Base", "Runnable", "T"}
 
-func pkgGen(maxDepth int) *rapid.Generator[string] {
+// The wide naming (two models in five): everything a Java identifier may consist of. Package
+// segments and type names with '_' and '$', in either letter case, with digits, with letters
+// outside ASCII (two- and three-byte runes), names that read like the ids and keywords of the
+// DOT language, and a long name. The plain alphabets come first, so shrinking moves to them.
+// The point of these names: two different qualified names that become equal when '.', '_', '$'
+// or letter case or non-ASCII letters are not told apart, or when only a prefix is looked at.
+var wideSegs = []string{"a_b", "ab_c", "a$b", "_a", "A", "Ab", "aB", "a1", "b1c", "ä", "ö", "äb", "包", "node1", "cluster1", "node", "graph", "subgraph", "G"}
+var wideClassNames = []string{"a", "b_A", "A_B", "A$B", "B$C", "B_C", "c_A", "_A", "A1", "Ä", "Ö", "Äb", "Öb", "订单", "注文", "node1", "node2", "cluster1", "Node", "Edge", "Graph", "digraph", "strict", "G", longStem + "1"}
+
+// 44 characters: longer than any width an id or label could sensibly be cut to
+const longStem = "OrderFulfilmentSettlementReconciliationFacade"
+
+func alphabets(wide bool) (segAlphabet, nameAlphabet []string) {
+	if !wide {
+		return segs, classNames
+	}
+	return append(append([]string{}, segs...), wideSegs...), append(append([]string{}, classNames...), wideClassNames...)
+}
+
+func pkgGen(maxDepth int, segAlphabet []string) *rapid.Generator[string] {
 	return rapid.Custom(func(t *rapid.T) string {
 		depth := rapid.SampledFrom([]int{1, 1, 1, 1, 2, 2, 2, 3, 4, 7}).Draw(t, "depth")
 		if depth > maxDepth {
 			depth = maxDepth
 		}
-		return strings.Join(rapid.SliceOfN(rapid.SampledFrom(segs), depth, depth).Draw(t, "segs"), ".")
+		return strings.Join(rapid.SliceOfN(rapid.SampledFrom(segAlphabet), depth, depth).Draw(t, "segs"), ".")
 	})
 }
 
@@ -86,6 +105,9 @@ type classDraw struct {
 	impls     []refDraw
 	fields    []refDraw
 	methods   []methodDraw
+	// wide naming only: this type is renamed to a near-twin of another type (see makeTwin);
+	// twin == 0: no. twinOf picks the other type, twinAux the dot / the rune pair
+	twin, twinOf, twinAux int
 }
 
 var callGen = rapid.Custom(func(t *rapid.T) callDraw {
@@ -96,9 +118,14 @@ var methodGen = rapid.Custom(func(t *rapid.T) methodDraw {
 	return methodDraw{name: rapid.SampledFrom(methodNames).Draw(t, "mname"), calls: rapid.SliceOfN(callGen, 0, 3).Draw(t, "calls")}
 })
 
-func classGen(pool []string) *rapid.Generator[classDraw] {
+func classGen(pool []string, nameAlphabet []string, wide bool) *rapid.Generator[classDraw] {
 	return rapid.Custom(func(t *rapid.T) classDraw {
-		c := classDraw{pkg: rapid.SampledFrom(pool).Draw(t, "pkg"), name: rapid.SampledFrom(classNames).Draw(t, "name")}
+		c := classDraw{pkg: rapid.SampledFrom(pool).Draw(t, "pkg"), name: rapid.SampledFrom(nameAlphabet).Draw(t, "name")}
+		if wide && rapid.IntRange(0, 2).Draw(t, "hasTwin") == 2 {
+			c.twin = rapid.IntRange(1, twinKinds).Draw(t, "twinKind")
+			c.twinOf = rapid.IntRange(1, 6).Draw(t, "twinOf")
+			c.twinAux = rapid.IntRange(0, 7).Draw(t, "twinAux")
+		}
 		c.spread = rapid.IntRange(0, 3).Draw(t, "anyPkg") < 3
 		c.kind = rapid.SampledFrom([]string{"", "", "", "Interface"}).Draw(t, "kind")
 		if rapid.IntRange(0, 3).Draw(t, "hasExtend") == 3 {
@@ -111,31 +138,107 @@ func classGen(pool []string) *rapid.Generator[classDraw] {
 	})
 }
 
+const twinKinds = 8
+
+func swapCase(s string, from int) (string, bool) {
+	for i := from; i < len(s); i++ {
+		switch ch := s[i]; {
+		case ch >= 'a' && ch <= 'z':
+			return s[:i] + string(ch-'a'+'A') + s[i+1:], true
+		case ch >= 'A' && ch <= 'Z':
+			return s[:i] + string(ch-'A'+'a') + s[i+1:], true
+		}
+	}
+	return s, false
+}
+
+// same number of runes each; the pairs differ in byte length, too
+var runePairs = [][2]string{{"Ä", "Ö"}, {"订", "注"}, {"é", "注"}, {"Ä", "_"}}
+
+// makeTwin gives a type (pkg, name) that is a near-twin of the type (op, on): a different
+// qualified name that equals the other one once some distinction is dropped. Some kinds rename
+// the other type as well (returned as op, on). ok == false: this kind cannot be applied here.
+//
+//	1, 2  one dot of the qualified name becomes '_' / '$'   legacy.order.Dao | legacy.order_Dao | legacy_order.Dao
+//	3     inner-class style                                  a.B$In | a.B_In
+//	4     letter case of the type name                       a.Order | a.order
+//	5     letter case of a package segment                   ab.c.A | Ab.c.A
+//	6     letters outside ASCII, equally many runes          a.ÄB | a.ÖB   (also 订/注, é/注, Ä/_)
+//	7     a common prefix of 45 and more characters          a.B<long>1 | a.B<long>2
+//	8     one dot dropped                                    a.b.C | ab.C | a.bC
+func makeTwin(kind, aux int, op, on string, segAlphabet []string) (pkg, name, op2, on2 string, ok bool) {
+	switch kind {
+	case 1, 2, 8:
+		if !strings.Contains(op, ".") {
+			// a package of one segment: the only dot is the one before the type name, and a type
+			// needs a package. Put the other type one package further down first.
+			op = op + "." + segAlphabet[aux%len(segAlphabet)]
+		}
+		sep := map[int]string{1: "_", 2: "$", 8: ""}[kind]
+		parts := strings.Split(op+"."+on, ".")
+		k := 1 + aux%(len(parts)-1) // the dot before parts[k]
+		merged := append(append(append([]string{}, parts[:k-1]...), parts[k-1]+sep+parts[k]), parts[k+1:]...)
+		return strings.Join(merged[:len(merged)-1], "."), merged[len(merged)-1], op, on, true
+	case 3:
+		return op, on + "_In", op, on + "$In", true
+	case 4:
+		n, ok := swapCase(on, 0)
+		return op, n, op, on, ok
+	case 5:
+		segStart := []int{0}
+		for i := 0; i < len(op); i++ {
+			if op[i] == '.' {
+				segStart = append(segStart, i+1)
+			}
+		}
+		p, ok := swapCase(op, segStart[aux%len(segStart)])
+		return p, on, op, on, ok
+	case 6:
+		rp := runePairs[aux%len(runePairs)]
+		return op, rp[1] + on, op, rp[0] + on, true
+	case 7:
+		return op, on + longStem + "2", op, on + longStem + "1", true
+	}
+	return "", "", op, on, false
+}
+
+func isPackageOf(name string, classes []mgen.Class) bool {
+	for _, o := range classes {
+		if o.Pkg == name || strings.HasPrefix(o.Pkg, name+".") {
+			return true
+		}
+	}
+	return false
+}
+
 func gen(t *rapid.T) Case {
 	var pool []string
+	// naming: 0-5 plain (the small colliding alphabets), 6-9 wide (see wideSegs, makeTwin)
+	wide := rapid.IntRange(0, 9).Draw(t, "naming") >= 6
+	segAlphabet, nameAlphabet := alphabets(wide)
 	template := rapid.IntRange(0, 5).Draw(t, "template")
 	if template == 5 {
 		// packages below a common stem of 5-6 segments: full type names of 7-9 segments, the
 		// lengths around MergePackageFunc's cut at 7
-		stem := strings.Join(rapid.SliceOfN(rapid.SampledFrom(segs), 5, 6).Draw(t, "stem"), ".")
+		stem := strings.Join(rapid.SliceOfN(rapid.SampledFrom(segAlphabet), 5, 6).Draw(t, "stem"), ".")
 		pool = []string{stem + ".a", stem + ".ab", stem + ".a.c", stem + ".ab.c", stem}
 	} else if template >= 3 {
 		// packages P.a, P.ab, bc.Q, c.Q: the shapes whose merged names concatenate alike
 		p, q := "", ""
 		if rapid.Bool().Draw(t, "prefix") {
-			p = pkgGen(3).Draw(t, "prefixPkg") + "."
+			p = pkgGen(3, segAlphabet).Draw(t, "prefixPkg") + "."
 		}
 		if rapid.Bool().Draw(t, "suffix") {
-			q = "." + pkgGen(3).Draw(t, "suffixPkg")
+			q = "." + pkgGen(3, segAlphabet).Draw(t, "suffixPkg")
 		}
 		pool = []string{p + "a", p + "ab", "bc" + q, "c" + q}
 	} else {
-		pool = rapid.SliceOfN(pkgGen(8), rapid.IntRange(1, 3).Draw(t, "minPkgs"), 4).Draw(t, "pkgs")
+		pool = rapid.SliceOfN(pkgGen(8, segAlphabet), rapid.IntRange(1, 3).Draw(t, "minPkgs"), 4).Draw(t, "pkgs")
 	}
 	var m mgen.Model
 	var draws []classDraw
 	seen := map[string]bool{}
-	for i, d := range rapid.SliceOfN(classGen(pool), rapid.IntRange(1, 5).Draw(t, "minClasses"), 7).Draw(t, "classes") {
+	for i, d := range rapid.SliceOfN(classGen(pool, nameAlphabet, wide), rapid.IntRange(1, 5).Draw(t, "minClasses"), 7).Draw(t, "classes") {
 		if d.spread && i < len(pool) {
 			d.pkg = pool[i]
 		}
@@ -145,6 +248,43 @@ func gen(t *rapid.T) Case {
 		seen[d.pkg+"."+d.name] = true
 		draws = append(draws, d)
 		m.Classes = append(m.Classes, mgen.Class{Pkg: d.pkg, Name: d.name, Type: d.kind})
+	}
+	// wide naming: some types become near-twins of another type; qualified names stay distinct
+	for i, d := range draws {
+		if d.twin == 0 || len(m.Classes) < 2 {
+			continue
+		}
+		j := (i + d.twinOf) % len(m.Classes)
+		if j == i {
+			j = (i + 1) % len(m.Classes)
+		}
+		me, other := &m.Classes[i], &m.Classes[j]
+		np, nn, op, on, ok := makeTwin(d.twin, d.twinAux, other.Pkg, other.Name, segAlphabet)
+		if !ok {
+			continue
+		}
+		oldMe, oldOther := me.Full(), other.Full()
+		delete(seen, oldMe)
+		delete(seen, oldOther)
+		if np+"."+nn == op+"."+on || seen[np+"."+nn] || seen[op+"."+on] {
+			seen[oldMe], seen[oldOther] = true, true
+			continue
+		}
+		me.Pkg, me.Name, other.Pkg, other.Name = np, nn, op, on
+		seen[me.Full()], seen[other.Full()] = true, true
+	}
+	// A package cannot hold a type and a subpackage of the same name (JLS 7.1: a compile-time
+	// error), so no type's qualified name is a package, or an enclosing package, of another type.
+	// With a type name alphabet that shares words with the segment alphabet (a, aB, node1, G) this
+	// can come about; such a type gets underscores appended until its name is free.
+	for i := range m.Classes {
+		c := &m.Classes[i]
+		for isPackageOf(c.Full(), m.Classes) {
+			delete(seen, c.Full())
+			for c.Name += "_"; seen[c.Full()]; c.Name += "_" {
+			}
+			seen[c.Full()] = true
+		}
 	}
 	var all []string
 	for _, c := range m.Classes {
@@ -246,19 +386,20 @@ func gen(t *rapid.T) Case {
 		case k < 1:
 			return ""
 		case k < 3:
-			return rapid.SampledFrom(segs).Draw(t, label+"Seg")
+			return rapid.SampledFrom(segAlphabet).Draw(t, label+"Seg")
 		case k < 4:
-			return "." + rapid.SampledFrom(classNames).Draw(t, label+"Cls")
+			return "." + rapid.SampledFrom(nameAlphabet).Draw(t, label+"Cls")
 		case k < 8:
 			return name
 		case k < 11: // a dotted prefix of a displayed name
 			parts := strings.Split(name, ".")
 			n := rapid.IntRange(1, len(parts)).Draw(t, label+"PrefixLen")
 			return strings.Join(parts[:n], ".") + "."
-		case k < 15: // any substring of a displayed name
-			i := rapid.IntRange(0, len(name)-1).Draw(t, label+"From")
-			j := rapid.IntRange(i+1, len(name)).Draw(t, label+"To")
-			return name[i:j]
+		case k < 15: // any substring of a displayed name (cut between runes: -x is a text)
+			rs := []rune(name)
+			i := rapid.IntRange(0, len(rs)-1).Draw(t, label+"From")
+			j := rapid.IntRange(i+1, len(rs)).Draw(t, label+"To")
+			return string(rs[i:j])
 		default:
 			return "zzz"
 		}
@@ -1126,6 +1267,73 @@ func classify(c Case, ref reference, shownNodes map[string]bool, shownReq map[pa
 	default:
 		add("filter_matches_all")
 	}
+	// names: what the wide naming adds, and whether two names the layout has to keep apart are
+	// near-twins (judged on the nodes of the configured mode that pass the filter)
+	var displayed []string
+	for _, n := range sortedKeys(shownNodes) {
+		for _, f := range filters {
+			if strings.Contains(n, f) {
+				displayed = append(displayed, n)
+				break
+			}
+		}
+	}
+	punct, nonASCII, dotWord := false, false, false
+	for n := range ref.nodes {
+		if strings.ContainsAny(n, "_$") {
+			punct = true
+		}
+		for _, r := range n {
+			if r > 127 {
+				nonASCII = true
+			}
+		}
+		for _, seg := range strings.Split(n, ".") {
+			switch strings.TrimRight(seg, "0123456789") {
+			case "node", "cluster", "graph", "subgraph", "digraph", "strict", "G", "Node", "Edge", "Graph":
+				dotWord = true
+			}
+		}
+	}
+	if punct {
+		add("name_with_underscore_or_dollar")
+	}
+	if nonASCII {
+		add("name_with_letter_outside_ascii")
+	}
+	if dotWord {
+		add("name_like_a_dot_keyword_or_id")
+	}
+	twins := func(label string, norm func(string) string) {
+		seenNorm := map[string]bool{}
+		for _, n := range displayed {
+			k := norm(n)
+			if k == "" {
+				continue
+			}
+			if seenNorm[k] {
+				add(label)
+				return
+			}
+			seenNorm[k] = true
+		}
+	}
+	twins("displayed_names_equal_when_non_alphanumerics_read_alike", func(n string) string {
+		return strings.Map(func(r rune) rune {
+			if r == '_' || r >= '0' && r <= '9' || r >= 'a' && r <= 'z' || r >= 'A' && r <= 'Z' {
+				return r
+			}
+			return '_'
+		}, n)
+	})
+	twins("displayed_names_differ_only_in_letter_case", strings.ToLower)
+	twins("displayed_names_equal_without_dots", func(n string) string { return strings.ReplaceAll(n, ".", "") })
+	twins("displayed_names_share_40_leading_characters", func(n string) string {
+		if len(n) < 40 {
+			return ""
+		}
+		return n[:40]
+	})
 	hidden := false
 	for p := range shownReq {
 		in := func(n string) bool {
@@ -1208,11 +1416,12 @@ func checkCLI(c Case) pbt.Verdict {
 
 func init() {
 	pbt.SetProperty("C13")
-	pbt.Describe("rapid-generated code models: 1-7 types (classes and interfaces) over 1-5 packages of depth 1-8 whose segments come from {a, ab, bc, c, b, abc} (so that different package pairs concatenate to the same string; one model in six puts its packages below a common stem of 5-6 segments, so that full type names have 7-9 segments, the lengths around MergePackageFunc's cut at 7), type names incl. Main, MainFrame, AppMain, main, Domain; per type an optional Extend, 0-2 Implements, 0-3 field calls (Type \"field\") and 0-3 methods (names incl. main, mainLoop, remain) with 0-3 calls; every reference targets a project type, the own type, an external type (java.util.List ...), an undeclared type in a project package, or a bare name (as a call receiver: empty, or a type name without package); identifier map = all project types or a strict subset; -x filter (empty, segment, 'seg.', '.Name', full type name, package, no match, two-element lists); merge mode none / -H / -P / -H -P. Oracle: reference node set N (types not named Main) and edge set E computed from the abstract model as the statement defines it (calls count only for methods not named main, callee type in the identifier map and different from the caller's type); Analysis: NodeList == N and RelationList restricted to NxN == E; MergeHeaderFile with MergeHeaderFunc and with MergePackageFunc on every case: nodes == f(N), relations between result nodes contain {(fA,fB) | (A,B) in E, fA != fB} and nothing outside the image of the model's dependencies; MergeHeaderFunc == strip last dotted segment; MergePackageFunc (otherwise taken as given) gives the same answer when asked again and maps a dotted name to a dotted prefix of it; a second Analysis of the same model gives the same graph; the graph the CLI would lay out is laid out three times (-x filter, a second drawn filter, the first filter again) and each DOT is judged on its own; DOT (\"di\"+ToMapDot(filter).String(), and coca_reporter/arch.dot of the real `coca arch` in the cli sub-check): accepted by a strict structural reader and by gographviz with equal node/cluster counts, every leaf is an included node shown once with its cluster-label chain == package path, every included type shown, every edge joins two declared leaves and is a reference relation, every reference relation between two shown nodes is drawn. the cli sub-check passes -x, or leaves it out when the filter is empty, and in one case of four puts deps.json elsewhere and names it with -d. Non-trivial = at least one relation to a non-project type and one between project types and >= 2 packages; distinct = hash of (N, all dependencies, filter, mode).",
+	pbt.Describe("rapid-generated code models: 1-7 types (classes and interfaces) over 1-5 packages of depth 1-8 whose segments come from {a, ab, bc, c, b, abc} (so that different package pairs concatenate to the same string; one model in six puts its packages below a common stem of 5-6 segments, so that full type names have 7-9 segments, the lengths around MergePackageFunc's cut at 7), type names incl. Main, MainFrame, AppMain, main, Domain; two models in five use the wide naming, everything a Java identifier may consist of: package segments and type names with '_' and '$' (a_b, b_A, B$C), in either letter case (Ab, aB, a), with digits, with letters outside ASCII of two and three bytes (\u00e4, \u00c4b, \u8ba2\u5355), names that read like DOT ids and keywords (node1, cluster1, graph, subgraph, digraph, strict, G) and a name of 45 characters, and in these models every third type is renamed to a near-twin of another type, i.e. a different qualified name that becomes equal to the other once a distinction is dropped: one dot read as '_' or '$' or dropped (legacy.order.Dao | legacy.order_Dao | legacy_order.Dao | legacy.orderDao, which under -H are the packages app.batch.jobs | app.batch_jobs), inner-class style B$In | B_In, letter case of the type name or of one package segment, equally many non-ASCII runes (\u00c4B | \u00d6B, also 3-byte and mixed-width pairs and \u00c4B | _B), a common prefix of 45+ characters; per type an optional Extend, 0-2 Implements, 0-3 field calls (Type \"field\") and 0-3 methods (names incl. main, mainLoop, remain) with 0-3 calls; every reference targets a project type, the own type, an external type (java.util.List ...), an undeclared type in a project package, or a bare name (as a call receiver: empty, or a type name without package); identifier map = all project types or a strict subset; -x filter (empty, segment, 'seg.', '.Name', full type name, package, no match, two-element lists); merge mode none / -H / -P / -H -P. Oracle: reference node set N (types not named Main) and edge set E computed from the abstract model as the statement defines it (calls count only for methods not named main, callee type in the identifier map and different from the caller's type); Analysis: NodeList == N and RelationList restricted to NxN == E; MergeHeaderFile with MergeHeaderFunc and with MergePackageFunc on every case: nodes == f(N), relations between result nodes contain {(fA,fB) | (A,B) in E, fA != fB} and nothing outside the image of the model's dependencies; MergeHeaderFunc == strip last dotted segment; MergePackageFunc (otherwise taken as given) gives the same answer when asked again and maps a dotted name to a dotted prefix of it; a second Analysis of the same model gives the same graph; the graph the CLI would lay out is laid out three times (-x filter, a second drawn filter, the first filter again) and each DOT is judged on its own; DOT (\"di\"+ToMapDot(filter).String(), and coca_reporter/arch.dot of the real `coca arch` in the cli sub-check): accepted by a strict structural reader and by gographviz with equal node/cluster counts, every leaf is an included node shown once with its cluster-label chain == package path, every included type shown, every edge joins two declared leaves and is a reference relation, every reference relation between two shown nodes is drawn. the cli sub-check passes -x, or leaves it out when the filter is empty, and in one case of four puts deps.json elsewhere and names it with -d. Non-trivial = at least one relation to a non-project type and one between project types and >= 2 packages; distinct = hash of (N, all dependencies, filter, mode).",
 		"'project type' for a call is membership in the identifier map, as the code and DESIGN.md define it; when the identifier map is a strict subset, calls to types outside it are expected to give no edge",
 		"a dependency on a type outside N whose merged name equals a merged node (e.g. an undeclared type in a project package) may or may not appear as a relation of the merged graph: allowed, not required",
 		"for merged graphs (-H/-P) a node that is a dotted prefix of another included node (package a next to a.b) is not required to be displayed: the display clause of the statement speaks of types; observed: such a package is drawn as a cluster only and its relations are not drawn",
-		"names contain no quote, backslash, slash or '->'; every type has a non-empty package (depth 1-8)")
+		"names are Java identifiers (ASCII letters, digits, '_', '$', letters outside ASCII): no quote, backslash, slash, blank, '-' or '->'; every type has a non-empty package (depth 1-8); -x texts are cut between runes",
+		"no type's qualified name is the package, or an enclosing package, of another type (a package cannot hold a type and a subpackage of the same name, JLS 7.1); the generator appends '_' to such a type name. Observed otherwise: the type is drawn as a cluster only, like the dotted-prefix package of the merged graphs")
 	pbt.Register("graph", 3000, 30000, gen, check)
 	pbt.Register("cli", 120, 600, gen, checkCLI)
 }
